@@ -424,7 +424,7 @@ pub fn run(rep: &mut Report) {
             rep.sample(json!({"logger_name": name, "reference_class": format!("{:?}", class)}));
         }
     });
-    let n = if rep.tier == "thorough" { 100_000 } else { 4_000 };
+    let n = if rep.tier == "thorough" { 300_000 } else { 30_000 };
     run_cases(rep, "input", n, |rep, rng, idx| {
         let inp = gen_input(rng, names_ref);
         let m = model(&inp);
